@@ -814,8 +814,13 @@ class Interp:
         if iterable is not None:
             assigned |= _target_names(st.target)
         frame_before = self.frame_marks(env)
+        declared = spec.get("declare", {})
         for name in sorted(assigned):
-            if name in env:
+            if name in declared:
+                # a local whose value has no structure to copy (e.g. None
+                # before the loop): fresh value of the declared type
+                env[name] = self.fresh(declared[name], f"{name}@L{k}")
+            elif name in env:
                 env[name] = self.havoc_like(env[name], f"{name}@L{k}")
         for path in spec.get("modifies", []):
             self.havoc_path(path, env, f"L{k}")
@@ -1502,7 +1507,43 @@ class Interp:
                               f": no contract")
         if con.inline:
             return self.inline_call(con, fn, obj, args, kwargs)
+        con = self._match_const_variant(con, info["file"],
+                                        f"{dcls}.{name}", fn, obj, args,
+                                        kwargs)
         return self.apply_contract(con, fn, obj, args, kwargs)
+
+    def _match_const_variant(self, con, file, qual, fn, obj, args, kwargs):
+        """Contracts may fix a parameter to a constant (("const", v)); when
+        the call's actual (concrete) argument differs, use the variant of
+        the callee's contract whose constants match the call."""
+        def consts(c):
+            return {p: t[1] for p, t in c.params.items()
+                    if isinstance(t, tuple) and t and t[0] == "const"}
+        if not consts(con):
+            return con
+        env = {}
+        try:
+            if obj is not None:
+                env[(fn.args.posonlyargs + fn.args.args)[0].arg] = obj
+            self.bind_params(fn.args, args, kwargs, env, qual,
+                             skip_self=obj is not None)
+        except Unsupported:
+            return con
+
+        def fits(c):
+            for p, v in consts(c).items():
+                a = env.get(p)
+                if isinstance(a, (bool, int, float, str)) or a is None:
+                    if a != v:
+                        return False
+            return True
+        if fits(con):
+            return con
+        for key, c in C.CONTRACTS.items():
+            if key[0] == file and key[1].startswith(qual + "#") and \
+                    consts(c) and fits(c):
+                return c
+        return con
 
     def call_property(self, obj, dcls, name):
         ci = ClassIndex.get()
